@@ -35,4 +35,19 @@ def connView (m : Mol) : AdjView := m.adj.map fun p => (p.1, p.2.map (·.1))
 /-- raw slots a `skel`/`conn` key may read -/
 def adjOnlyRaw : List String := ["_bonds"]
 
+
+/-- `flush_cache(keep_…)` call sites outside the modelled methods, reviewed by hand against what the method changes
+(from its documentation): ring values survive anything that neither adds nor removes ordinary bonds between the atoms
+that stay (bond orders, charges, isotopes, stereo marks, special bonds, terminal hydrogens with an explicit pop);
+component values survive anything that adds or removes no bond at all.  (method, may keep ring values, may keep components) -/
+def bulkReviewed : List (String × Bool × Bool) :=
+  [("Kekule.kekule", true, true), ("Kekule.__fix_rings", true, true), ("Thiele.thiele", true, true),
+   ("Standardize.standardize_charges", true, true), ("Standardize.remove_coordinate_bonds", true, false),
+   ("Standardize.implicify_hydrogens", true, false), ("Standardize.explicify_hydrogens", true, false),
+   ("Standardize.clean_isotopes", true, true), ("Standardize.__standardize", true, true),
+   ("Resonance.fix_resonance", true, true), ("Salts.remove_metals", true, false),
+   ("MoleculeStereo.add_wedge", true, true), ("MoleculeStereo.calculate_cis_trans_from_2d", true, true),
+   ("MoleculeStereo.add_atom_stereo", true, true), ("MoleculeStereo.add_cis_trans_stereo", true, true),
+   ("AcidBase.neutralize", true, true)]
+
 end ChythonModel.Spec.Deps
